@@ -8,7 +8,10 @@ pub fn run(rec: &mut Recorder, w: &mut World, tier: &str, seed: u64) {
     let mut rng = Rng::new(seed);
     let ks = kinds();
     let per = (if tier == "thorough" { 150 } else { 10 }) * rec.budget as usize;
-    for k in &ks {
+    // every kind as documented, then the plain-name kinds once more over universes with unusual values
+    let mut spiced: Vec<Kind> = vec![];
+    for k0 in ks.iter().filter(|k| PLAIN_KINDS.contains(&k.name)) { let (k, _) = spice_kind(&mut rng, k0); spiced.push(k); }
+    for k in ks.iter().chain(spiced.iter()) {
         let reqs = requests(k);
         let reqf = enc_reqs(&reqs);
         for (ename, eff) in EFFECTS.iter() {
@@ -29,7 +32,7 @@ pub fn run(rec: &mut Recorder, w: &mut World, tier: &str, seed: u64) {
                 let n = match rng.below(8) { 0 => 0, 1..=3 => 1, 4 | 5 => 2, 6 => 3, _ => 4 + rng.below(10) };
                 let mut rules: Vec<Vec<String>> = vec![];
                 for _ in 0..n { let r = gen_rule(&mut rng, k, with_eft); if !rules.contains(&r) { rules.push(r); } }
-                if rng.chance(1, 10) && !rules.is_empty() { let i = rng.below(rules.len()); rules[i].pop(); rec.count("policy:malformed-rule"); }
+                if rng.chance(1, 8) && !rules.is_empty() { let i = rng.below(rules.len()); if rng.chance(1, 2) { rules[i].pop(); } else { rules[i].push("extra".to_string()); } rec.count("policy:malformed-rule"); }
                 let links = gen_links(&mut rng, k);
                 rec.begin();
                 // plain: rules under p
